@@ -918,6 +918,10 @@ def programs(tier):
     reg("append(x2,y2)", lambda w, E: (lambda a, b: Prog(w.fn(IDm, "append")(w.fn(NC, "new_collection")(a.node), w.fn(NC, "new_collection")(b.node)).expr,
                                                             np.concatenate([a.ref, b.ref]), {**a.dsk, **b.dsk}))(source(w, E, "x", (2,)), source(w, E, "y", (2,))), 2)
     CMm = "dask_array.reductions._cumulative"
+    # moments of order 0 / 1 are constants by definition; keepdims still shapes them
+    reg("moment(x2x2,0,axis=1,keepdims)", lambda w, E: p_pub(w, source(w, E, "x", (2, 2)), RCM, "moment", lambda X: SArr((X.shape[0], 1), lambda idx: z3.RealVal(1)), 0, axis=1, keepdims=True), 2)
+    reg("moment(x2x2,1,axis=0,keepdims)", lambda w, E: p_pub(w, source(w, E, "x", (2, 2)), RCM, "moment", lambda X: SArr((1, X.shape[1]), lambda idx: z3.RealVal(0)), 1, axis=0, keepdims=True), 2)
+    reg("moment(x2x2,1,axis=0)", lambda w, E: p_pub(w, source(w, E, "x", (2, 2)), RCM, "moment", lambda X: SArr((X.shape[1],), lambda idx: z3.RealVal(0)), 1, axis=0), 2)
     reg("cumsum(x3,axis=0)", lambda w, E: p_pub(w, source(w, E, "x", (3,)), CMm, "cumsum", lambda X: X.accumulate(0, "add"), axis=0), 2)
     reg("cumsum(x3,axis=0,method=blelloch)", lambda w, E: p_pub(w, source(w, E, "x", (3,)), CMm, "cumsum", lambda X: X.accumulate(0, "add"), axis=0, method="blelloch"), 2)
     reg("cumsum(x2x2,axis=1)[a:b]", lambda w, E: p_slice(w, p_pub(w, source(w, E, "x", (2, 2)), CMm, "cumsum", lambda X: X.accumulate(1, "add"), axis=1), raw_index(E, (F,))), 5)
